@@ -1,13 +1,37 @@
-(* C01 -- every reported bound is a derivation of the mwp flow calculus.
-   Statements only. Model: theories/Analysis.v (tied to pymwp/analysis.py by the correspondence run);
-   specification: theories/Calculus.v.  This file grows as the lemma chain of DESIGN.md appendix A lands. *)
+(* C01 -- every reported bound is a derivation of the mwp flow calculus.  Statements only.
+   Model: theories/Analysis.v (executable model of Analysis.func/cmds/compute_relation, tied to
+   pymwp/analysis.py, relation.py, polynomial.py ... by the correspondence run of tools/props/c01.py);
+   specification: theories/Calculus.v ([derive_func f cs]: the matrix the calculus derives for the
+   function body at the choice vector cs, or None when a while/for side condition fails), built on the
+   rule table and side conditions REGENERATED from the source on every run. *)
 From Coq Require Import String List Bool.
-From PM Require Import Semiring Poly Rel Analysis Calculus.
+From PM Require Import Semiring Poly Rel Analysis Calculus An_stmts.
+From PM Require An_closed.
 From PMGen Require Import RulesGen.
 Import ListNotations.
 
-(* the rule alternatives and side conditions the analysis uses (regenerated from the source on every run)
-   are the documented ones *)
+(* "nothing missing and nothing extra": for a function the analysis reports as not infinite
+   (whatever the early-stop option), the degree is the number k of binary-operation sites, the reported
+   variables are the function's, and for each of the 3^k choice vectors cs:
+     - the choice object accepts cs  <->  the calculus has a derivation at cs,
+     - at such a vector the matrix obtained by applying cs to the reported relation IS the derived matrix. *)
+Theorem C01_valid_choices_and_matrices_are_the_derivations :
+  forall f stop res, func_ok f -> analyse f stop = ROk res -> fr_infinite res = false ->
+    fr_index res = sites f /\
+    fr_vars res = func_vars f /\
+    exists r, fr_rel res = Some r /\ rvars r = func_vars f /\
+    forall cs, vec_ok (fr_index res) cs ->
+      (accepted (fr_inf_deltas res) cs = true <-> exists A, fst (derive_func f cs) = Some A) /\
+      (forall A, fst (derive_func f cs) = Some A ->
+         apply_choice r (choice_of_list cs) = smat_table (func_vars f) A).
+Proof. exact An_closed.finite_result. Qed.
+
+(* the statement-level invariant behind it (any nesting depth, any number of variables and sites) *)
+Theorem C01_statement_simulation :
+  forall V fuel index s d, names_ok V -> incl (stmt_vars s) V -> dg_inv d -> stmt_sim V fuel index s d.
+Proof. exact An_closed.main_sim. Qed.
+
+(* the rule alternatives and side conditions the analysis uses are the documented ones *)
 Theorem C01_rule_table_is_documented :
   CV_TABLE = [(CvConst, [], [(M, M, M)]);
               (CvEq, ["*"%string], [(W, W, W)]);
@@ -22,5 +46,11 @@ Theorem C01_side_conditions_are_documented :
   (forall s d, L_PROPAGATE s d = sc_eqb s P) /\ APPLY_CHOICE_LEAST = O /\ DOMAIN = [0; 1; 2].
 Proof. exact side_conditions_are_documented. Qed.
 
+(* "the bound attached to the result is the matrix of the first reported valid choice, read column-wise":
+   Bound.calculate reads columns (theorem C20_calculate_columns in props/C20.v); that the tool applies it
+   to apply_choice(first) is checked on every real result by tools/props/c01.py (clause `bound`). *)
+
+Print Assumptions C01_valid_choices_and_matrices_are_the_derivations.
+Print Assumptions C01_statement_simulation.
 Print Assumptions C01_rule_table_is_documented.
 Print Assumptions C01_side_conditions_are_documented.
